@@ -1,0 +1,62 @@
+//go:build verif
+
+package excelize
+
+import (
+	"fmt"
+	"strings"
+)
+
+// VerifC04Dump prints the cached worksheet structure (row slots with their r
+// and hidden attributes, every cell slot with its stored reference as numbers,
+// formula/style flags and stored text) in the canonical form used by the C04
+// transcript. It only calls workSheetReader (what every getter does first).
+func VerifC04Dump(f *File, sheet string) (out string, err error) {
+	ws, err := f.workSheetReader(sheet)
+	if err != nil {
+		return "", err
+	}
+	if len(ws.SheetData.Row) == 0 {
+		return "ok .", nil
+	}
+	rows := make([]string, 0, len(ws.SheetData.Row))
+	for i := range ws.SheetData.Row {
+		row := &ws.SheetData.Row[i]
+		cells := make([]string, 0, len(row.C))
+		for j := range row.C {
+			c := &row.C[j]
+			col, r := 0, 0
+			if c.R != "" {
+				col, r, _ = CellNameToCoordinates(c.R)
+			}
+			fl := 0
+			if c.F != nil {
+				fl |= 1
+			}
+			if c.S != 0 {
+				fl |= 2
+			}
+			v := c.V
+			if c.IS != nil {
+				v = c.IS.String()
+			}
+			cells = append(cells, fmt.Sprintf("%d.%d.%d.%s", col, r, fl, verifHex(v)))
+		}
+		h := 0
+		if row.Hidden {
+			h = 1
+		}
+		rows = append(rows, fmt.Sprintf("R%dh%d:%s", row.R, h, strings.Join(cells, ",")))
+	}
+	return "ok " + strings.Join(rows, "|"), nil
+}
+
+// VerifC04RowSlots returns the number of materialised row slots of the cached
+// worksheet (0 when the sheet cannot be read).
+func VerifC04RowSlots(f *File, sheet string) int {
+	ws, err := f.workSheetReader(sheet)
+	if err != nil {
+		return 0
+	}
+	return len(ws.SheetData.Row)
+}
